@@ -60,3 +60,9 @@ add("C15",
     "~10^3 (quick) to ~2*10^4 (thorough) graphs of 2-9 nodes with every edge carrier (start, size, array length, condition, value, type argument); checks cycle error iff cycle, reported name sets == SCCs, order is a stable topological permutation, and termination.",
     "Trusts: my SCC implementation; the intended graph equals the compiler's view of references (edges are only the names I print); 60 s limit as termination judge.",
     "DESIGN.md §4 C15")
+
+add("C14",
+    "catalogue-driven property-based testing: generated boundary-heavy realisable modules must be accepted; one documented-rule violation per base (widths, enum range/sign/maximum_bits, bits size/members, array elements, size mismatches, byte-order rules, attribute scope/duplication/values, reserved words) must be rejected without exception",
+    "~600 (quick) to ~10^4 (thorough) bases with randomised widths/values at the boundaries and ~2 violations each from a catalogue of ~70 rules; finds unenforced or over-enforced layout/attribute rules and crashes; rules outside the catalogue are not covered.",
+    "Trusts: the catalogue as a faithful reading of doc/language-reference.md (fixed-size type in larger field counts as a violation, pinned by constraints_test).",
+    "DESIGN.md §4 C14")
